@@ -354,7 +354,7 @@ func (wd *world) pkgGoroutines() int {
 	}
 	cnt := 0
 	for _, blk := range strings.Split(string(buf), "\n\n") {
-		if strings.Contains(blk, wd.frag) && !strings.Contains(blk, "main.(*world).submit") {
+		if strings.Contains(blk, wd.frag) && !strings.Contains(blk, "main.(*world).submit(") {
 			cnt++
 		}
 	}
